@@ -41,7 +41,18 @@ type Sel struct {
 type Ptr struct {
 	Obj  *Object
 	Path []Sel
-	Nil  bool
+	Nil  bool // definitely nil (Obj == nil)
+	May  *T   // non-nil pointer shape that is nil when this condition holds (nil: never)
+}
+
+func (p Ptr) nilCond() T {
+	if p.Nil {
+		return tTrue
+	}
+	if p.May != nil {
+		return *p.May
+	}
+	return tFalse
 }
 
 // Slc is a slice value: a view of the (big or small) array at Obj/Path.
@@ -231,7 +242,18 @@ func zipLeaves(a, b Value, f func(x, y Sc) Sc) (Value, bool) {
 		if x.Nil && y.Nil {
 			return x, true
 		}
-		if x.Nil != y.Nil || x.Obj != y.Obj || len(x.Path) != len(y.Path) {
+		if x.Nil != y.Nil {
+			// one side definitely nil: keep the other's shape, combine the nil conditions
+			z := y
+			if y.Nil {
+				z = x
+			}
+			c := f(Sc{T: x.nilCond()}, Sc{T: y.nilCond()}).T
+			z.Nil = false
+			z.May = &c
+			return z, true
+		}
+		if x.Obj != y.Obj || len(x.Path) != len(y.Path) {
 			return nil, false
 		}
 		path := make([]Sel, len(x.Path))
@@ -245,7 +267,12 @@ func zipLeaves(a, b Value, f func(x, y Sc) Sc) (Value, bool) {
 				path[i].Idx = r.T
 			}
 		}
-		return Ptr{Obj: x.Obj, Path: path}, true
+		out := Ptr{Obj: x.Obj, Path: path}
+		if x.May != nil || y.May != nil {
+			c := f(Sc{T: x.nilCond()}, Sc{T: y.nilCond()}).T
+			out.May = &c
+		}
+		return out, true
 	case Slc:
 		y, ok := b.(Slc)
 		if !ok {
